@@ -18,7 +18,7 @@ from replicat.backends.local import Local  # noqa: E402
 from replicat.utils import SnapshotListColumn as SC, FileListColumn as FC, bytes_to_human  # noqa: E402
 
 
-async def run_history(root, rnd):
+async def run_history(root, rnd, scripted=False):
     problems = []
     src = root / 'src'
     src.mkdir()
@@ -28,8 +28,14 @@ async def run_history(root, rnd):
     names = ['a.txt', 'b.bin', 'sub/c.txt', 'sub/d']
     current = {}
     snaps = []       # (name, {abs path: bytes}) oldest first
-    for i in range(rnd.randint(3, 5)):
-        for n in names:
+    # scripted history: paths that are present / absent / present again (the version of the NEWEST snapshot containing
+    # the path wins, however many snapshots without it lie in between), incl. a newer version that is a prefix of an older one
+    script = [{'a.txt': 200, 'b.bin': 128, 'sub/c.txt': 70}, {'a.txt': 10}, {'a.txt': 33, 'b.bin': 64}, {'sub/d': 5}, {'sub/c.txt': 9, 'a.txt': 1}]
+    for i in range(len(script) if scripted else rnd.randint(3, 5)):
+        if scripted:
+            base = lib.content(4242, 400)
+            current = {n: base[:sz] for n, sz in script[i].items()}
+        for n in ([] if scripted else names):
             roll = rnd.random()
             if roll < 0.35:
                 current[n] = lib.content(rnd.randint(0, 10 ** 6), rnd.choice([0, 5, 64, 150, 1200]))
@@ -109,12 +115,12 @@ def main():
     payload = lib.read_payload()
     tier, seed = payload.get('tier', 'quick'), int(payload.get('seed', 0))
     failures, samples, cases = [], [], 0
-    for h in range(12 if tier == 'thorough' else 3):
+    for h in range(40 if tier == 'thorough' else 3):
         rnd = random.Random(seed * 100 + h)
         with lib.scratch('vf_c15_') as root:
             cases += 1
             try:
-                probs = asyncio.run(run_history(root, rnd))
+                probs = asyncio.run(run_history(root, rnd, scripted=(h == 0)))
             except Exception as e:
                 import traceback
                 probs = [{'problem': 'exception', 'error': f'{type(e).__name__}: {e}'[:200], 'tb': traceback.format_exc()[-500:]}]
